@@ -36,6 +36,16 @@ def main(argv=None):
         return 2
     sys.path.insert(0, common.REPO)          # qstrader is imported from /repo's working tree
     sys.dont_write_bytecode = True
+    # every scratch file of this run (TLC work directories, CSV markets, child interpreters' temporaries) lives in ONE
+    # directory next to the checks - not under /tmp, which other jobs on the machine clean at will - and is removed at the end
+    import atexit
+    import shutil
+    import tempfile
+    base = os.environ.get("QSVERIF_SCRATCH") or os.path.join(os.path.dirname(os.path.dirname(os.path.abspath(__file__))), ".scratch")
+    os.makedirs(base, exist_ok=True)
+    run_dir = tempfile.mkdtemp(prefix="run-%s-" % a.prop, dir=base)
+    os.environ["QSVERIF_SCRATCH"] = os.environ["TMPDIR"] = tempfile.tempdir = run_dir
+    atexit.register(shutil.rmtree, run_dir, True)
     try:
         mod = __import__("qsverif." + ENGINES[a.prop], fromlist=["run"])
         rep = mod.run(a.prop, replay_file=a.replay)
